@@ -80,7 +80,13 @@ Flow(node, st, L) ==
 RECURSIVE UsedVars(_), UsedVarsSeq(_, _)
 UsedVarsSeq(a, i) == IF i > Len(a) THEN {} ELSE UsedVars(a[i]) \cup UsedVarsSeq(a, i + 1)
 UsedVars(node) ==
-  (IF node.k \in {"Load", "Store", "Ref", "Idx"} THEN {node.i[1]} ELSE {}) \cup UsedVarsSeq(node.a, 1)
+  (IF node.k \in {"Load", "Store", "Ref", "Idx"} THEN {node.i[1]} ELSE IF node.k = "DynSet" THEN {node.i[2]} ELSE {})
+  \cup UsedVarsSeq(node.a, 1)
+
+\* DynamicScratchVar objects (each needs a slot of its own for the index it holds)
+RECURSIVE UsedDyns(_), UsedDynsSeq(_, _)
+UsedDynsSeq(a, i) == IF i > Len(a) THEN {} ELSE UsedDyns(a[i]) \cup UsedDynsSeq(a, i + 1)
+UsedDyns(node) == (IF node.k \in {"DynSet", "DynLoad", "DynStore"} THEN {node.i[1]} ELSE {}) \cup UsedDynsSeq(node.a, 1)
 
 \* routine 0 is main; only routines reachable from main through calls are compiled
 RECURSIVE Callees(_), CalleesSeq(_, _)
